@@ -20,7 +20,8 @@ CHECKS = {
             "(plus valid controls), including candidates signed over whatever the implementation itself treats as the signed "
             "message. accept => reference-valid; any raise => deep fingerprint of the prior state unchanged; accepted controls "
             "must produce the reference unspent set. Exhaustive within depth 3 (quick) / 4 (thorough) on a harness-rooted "
-            "easy-target chain and depth 1/2 on the real genesis.",
+            "easy-target chain and depth 1/2 on the real genesis. Every rule-breaking candidate is also delivered by a peer to a real "
+            "node (start-up state / after its own miner found a block): chain state, pool and store unchanged by the rejection.",
             "Trusts the reference validator (vf/refmodel.py, bound to real data by C18), ecdsa, and the seams: scrypt stand-in, "
             "checkpoint horizon lowered, ecdsa verification memoised. Signature forgery is outside any enumeration.",
             "DESIGN.md section 4, C01"),
@@ -28,7 +29,9 @@ CHECKS = {
             TREE + "candidates: reward = bound, +1, -1, split, absent fees, wrap-around values, out-of-range and overspending "
             "outputs, every malformed shape of the reward transaction. accept => reference-valid; unspent total at every stored "
             "block <= parent's + subsidy and <= cumulative schedule, from the implementation's own unspent sets. A third universe has the "
-            "subsidy halving interval rebound to 3 blocks so that explored chains cross two halvings.",
+            "subsidy halving interval rebound to 3 blocks so that explored chains cross two halvings. A three-step candidate sequence "
+            "(high-fee block; a low-fee list on an ancestor lacking its input; the list with a reward claiming more than its own "
+            "fees) exercises whatever the fee computation remembers between blocks.",
             "Reference subsidy formula is the check's own; halving heights are out of reach (composition with C16).",
             "DESIGN.md section 4, C02"),
     'C03': (MC, "explicit-state search over block trees x arrival orders, both add paths; reference replay-from-genesis in "
@@ -38,7 +41,8 @@ CHECKS = {
             "ancestors; a second arrival order of the same set must give the same per-block views; every intermediate snapshot "
             "is re-fingerprinted after later adds. Four build modes: validated / unvalidated entry point, without and with balance "
             "look-ups (at the head / at every block) between arrivals, so that on-demand caches are hot when the next block "
-            "arrives; a second payload menu pays never-seen keys twice in one transaction / reward.",
+            "arrives; a second payload menu pays never-seen keys twice in one transaction / reward; a third has a zero-value reward "
+            "output to a key that then spends all its positive outputs.",
             "De-duplication on (stored set, head) assumes the state is a function of those; that is exactly what the per-block "
             "comparison and the order differential test for the kept representatives.", "DESIGN.md section 4, C03"),
     'C04': (MC, "exhaustive enumeration of all n! parent-choice sequences; reference fork choice in lock-step",
@@ -72,7 +76,8 @@ CHECKS = {
             "types every position x every byte value, 1..8 redundant continuation bytes before every VLQ field, trailing data: "
             "whatever decodes must re-encode to the consumed bytes and carry id = sha256d(canonical encoding); 1,060 grid values "
             "of all consensus and wire types round-trip field by field; ids of objects read back from a BlockStore; list sizes up to "
-            "16384. Threads: 5 two-thread plans (id / encoding of a value built in memory, message bytes as send_message builds "
+            "16384; the signature / public-key field re-formed under every type byte x lead byte x every prefix / suffix of its "
+            "bytes (393,214 mutants). Threads: 5 two-thread plans (id / encoding of a value built in memory, message bytes as send_message builds "
             "them) under every schedule with <= 1 (2) preemptions at source-line granularity of datatypes, serialization, "
             "signing and messages: every result equals the reference encoding / its double SHA-256 and decodes back.",
             "The space of byte strings is unbounded; what is complete is the stated mutation families.", "DESIGN.md section 4, C07"),
@@ -84,7 +89,8 @@ CHECKS = {
             "a 2-block prefix, under every composition of the writes into flush batches; after every flush a new BlockStore on "
             "the same file and read_chain_from_disk: same ids, byte-identical blocks, parent before child, rebuilt unspent set "
             "at every block and head height equal to the pre-restart ones; plus a 201-block chain carrying reward data of every "
-            "length 0..200 under three batchings. Threads: 4 plans of 2-3 threads doing save_block / flush_blocks through the "
+            "length 0..200 under three batchings; batchings with <= 2 flushes also with the first batch handed over, discarded "
+            "as after a rejected download, and handed over again. Threads: 4 plans of 2-3 threads doing save_block / flush_blocks through the "
             "real DiskInterface on one file store, every schedule with <= 2 (3) preemptions (3-thread plan one less) at "
             "source-line granularity of blockstore.py: every block whose saving thread's flush returned is read back "
             "byte-identical from the re-opened store, no exception, no deadlock. One recorded defect (shared transaction across "
@@ -131,7 +137,8 @@ CHECKS = {
             "(also with an empty read) and every 3-way cut, through MessageReceiver.receive and through "
             "ConnectedRemotePeer.handle_receive_data; the dispatched sequence and the read that raises the refusal must equal "
             "the reference framer's under every cut. Frames of 5 KB / 71 KB (thorough 1.1 MB) alone, first and last in a stream under "
-            "1024 / 4096 / 65536-byte reads and every single cut next to a frame boundary, a power of two or the end.",
+            "1024 / 4096 / 65536-byte reads and every single cut next to a frame boundary, a power of two or the end; two multi-read "
+            "frames back to back under every alignment of 1024-byte reads.",
             "Payload validity inside a frame is decided by the real message decoders (fragmentation independence, not the "
             "decoders, is under test here).", "DESIGN.md section 4, C11"),
     'C12': (MC, "exhaustive enumeration of ledger states x pool subsets x clock offsets x intervening event, driving the real "
@@ -139,7 +146,7 @@ CHECKS = {
                 "found-block handler (miner thread) against the networking thread",
             "For every ledger state of a block-tree search (depth 2 / 3, forks, head on either branch), every compatible pool "
             "subset of size <= 3 (fees 0, 3, 1000, 10^8; 1- and 2-input), clock - head time in {-30,-29,-1,0,1,120} and "
-            "{nothing, the clock advances by 7 s, competing block with a time inside (clock, clock+30] arrives, pool gains a "
+            "{nothing, the clock advances by 7 s, the socket to the first peer is dead, competing block with a time inside (clock, clock+30] arrives, pool gains a "
             "transaction} injected after "
             "work request 0 or 1 or after result 0 (root target 2^255, so runs contain losing nonces; retarget period seam 4, so "
             "candidates at heights 4 and 8 are retarget-boundary blocks): the found block "
@@ -158,7 +165,8 @@ CHECKS = {
             "BFS to depth 4 (6), de-duplicated on (stored blocks, head, ordered pool): submissions (valid, conflicting, "
             "overlapping 2-input, already mined, other-fork output, 8 malformed kinds, bad signature, overspend, resubmission) "
             "through the network handler and through add_transaction_to_pool; head changes (extension including / conflicting "
-            "with / ignoring pooled transactions, side forks, reorganisations) through relayed blocks and through set_coinstate. "
+            "with / ignoring pooled transactions, side forks, reorganisations) through relayed blocks, through blocks answering a "
+            "request (bulk path) and through set_coinstate. "
             "After every operation: every pooled transaction reference-valid at the head, pairwise disjoint references, "
             "nothing inadmissible admitted, after a head change exactly the still-valid ones remain. Threads: 6 plans of 2-3 "
             "threads (add_transaction_to_pool, a head change that spends / ignores the inputs, a get_state observer) under every "
@@ -176,7 +184,8 @@ CHECKS = {
             "must pass the node's and the reference validation, pay exactly, give exactly the change, use only unused wallet "
             "outputs; a failure must leave the record unchanged and happen only when unused outputs do not suffice. 24 (40) worlds are "
             "explored to 5 (6) operations with a reduced amount alphabet, confirmation of ANY pending spend as its own operation and "
-            "one reorganisation onto a branch without the confirmed spends.",
+            "one reorganisation onto a branch without the confirmed spends; wallets holding 1,100 (2,100) outputs, 13 attempts each "
+            "(few, 255/256, all but one, all).",
             "Greedy selection order is whatever the wallet does; only the stated outcome is checked.", "DESIGN.md section 4, C14"),
     'C15': (MC, "explicit-state search over wallet operation sequences with a reference wallet in lock-step; crash-point "
                 "enumeration of every save (snapshot at every raw write / close / rename)",
@@ -187,14 +196,17 @@ CHECKS = {
             "100 (400)-key wallet crossing the 8 KiB write buffer, every on-disk view at every operation boundary is loaded "
             "with the real loader and must be the complete old or the complete new wallet; the skepticoin-receive command is "
             "killed at every file-operation and output boundary and invoked again on what it left: an address already shown "
-            "is never shown again while unused keys remain.",
+            "is never shown again while unused keys remain; after every crash snapshot the process restarts on those files, loads and "
+            "saves again: the file then holds that wallet.",
             "Process-crash model (kernel view at syscall boundaries); no power-loss reordering.", "DESIGN.md section 4, C15"),
     'C17': (EX, "exhaustive enumeration of all lists over a small alphabet and all single edits / proof positions per length",
             "All lists over 3 (4) ids up to length 8 (9): commitments pairwise distinct (covers every substitution, reordering, "
             "removal, append, duplication incl. duplicate-last); for every length up to 33 (130) every single edit changes the "
             "commitment and the proof at every position reproduces it and contains the entry; the same edits on real blocks' "
             "transaction lists with the header kept are refused; every ordered pair of lists over 4 ids up to length 4 (5): "
-            "after committing to the first, the tree and every proof of the second are right (no dependence on earlier calls).",
+            "after committing to the first, the tree and every proof of the second are right (no dependence on earlier calls); 4 "
+            "two-thread plans (roots / trees+proofs of different lists) under every schedule with <= 1 (2) preemptions at "
+            "source-line granularity of merkletree.py.",
             "Leaves are independent hashes; a leaf equal to an inner node needs a preimage.", "DESIGN.md section 4, C17"),
     'C18': (EX, "exhaustive enumeration of all 327 checkpoints x id variants x both entry points; recorded blocks re-validated "
                 "with real scrypt",
@@ -203,14 +215,16 @@ CHECKS = {
             "1234; horizon-1/0/+1; table pinned by digest; genesis + 5 recorded blocks keep id and bytes and "
             "pass full validation with the real scrypt (horizon lowered), also when a competing block at height 1 arrived first "
             "and right after refused look-alikes (altered evidence; re-mined copies claiming a wrong height whose evidence "
-            "reconstruction fails half-way), and the check's reference validator agrees on them.",
+            "reconstruction fails half-way), and when the recorded chain is loaded again into fresh objects after the earlier ones "
+            "were dropped, with id() replaced by a harness-owned one that hands dead objects' ids to new objects adversarially; "
+            "the check's reference validator agrees on the recorded blocks.",
             "Only six recorded real blocks exist offline.", "DESIGN.md section 4, C18"),
     'C16': (EX, "exhaustive enumeration of the whole input domain (every height) against a closed-form reference",
             "Complete enumeration: get_block_subsidy is evaluated at every one of the 33.6 million heights up to one "
             "full era past exhaustion and at every era boundary up to 2^32-1 and beyond, compared with the closed-form "
             "schedule, checked for monotonicity, summed (= documented maximum) and compared with docs/params.md; the same heights "
             "in descending order, every ordered pair of 106 representative heights and every ordered triple of era starts "
-            "(the answer must not depend on earlier calls); the validator's reward bound at the real era boundaries; 11,117 "
+            "(the answer must not depend on earlier calls); the validator's reward bound at the real era boundaries (single- and multi-output rewards); 11,117 "
             "output lists over a boundary alphabet offered to the stand-alone transaction validator (accepted iff every output "
             "and the total are in (0, maximum]). "
             "Nothing is sampled, so the verdict is a statement about all inputs.",
